@@ -639,6 +639,10 @@ type Alphabet struct {
 	Transfer  bool
 	Incentive bool
 	Ticks     []int
+	// CrossSwaps adds, per direction, swaps whose input is synthesised by the exact walker from the current
+	// state: the amount that lands exactly on the next initialised tick, and one and a half times that
+	// (crosses the tick and continues into the next bucket)
+	CrossSwaps bool
 }
 
 func (w *World) Enabled(al *Alphabet) func(ctx sdk.Context, l *Ledger, depth int) []Op {
@@ -649,6 +653,21 @@ func (w *World) Enabled(al *Alphabet) func(ctx sdk.Context, l *Ledger, depth int
 		}
 		for _, x := range al.SwapOut {
 			ops = append(ops, Op{K: "swapout", D: 0, X: x}, Op{K: "swapout", D: 1, X: x})
+		}
+		if al.CrossSwaps && len(l.Pos) > 0 {
+			if sp := w.pool(ctx).GetCurrentSqrtPrice(); !sp.IsZero() {
+				c := newCurve(l)
+				s0 := ratBigDec(sp)
+				for dir := 0; dir < 2; dir++ {
+					if in, _, ok := c.toNextTick(s0, dir == 0, ratDec(w.SF)); ok {
+						ci := ceilRat(in)
+						if ci.Sign() > 0 && ci.BitLen() < 60 {
+							x := ci.Int64()
+							ops = append(ops, Op{K: "swapin", D: dir, X: x}, Op{K: "swapin", D: dir, X: x + x/2 + 1000})
+						}
+					}
+				}
+			}
 		}
 		if len(l.Pos) < 4 {
 			ops = append(ops, al.Creates...)
